@@ -68,6 +68,20 @@ CHECKS["C07"] = dict(
               "with backend request inspection",
 )
 
+CHECKS["C08"] = dict(
+    category="fault_enumeration",
+    text="CTFEFaults.tla enumerates the complete finite matrix: 7 backend-calling endpoints x (16 gRPC codes + the classes "
+         "of malformed reply their RPC admits) x fault position 1..3 in a request sequence x masking on/off, plus every "
+         "endpoint x bad-parameter / wrong-method class, each with the status class the property demands (4xx, 429, 503, "
+         "504, 5xx, 4xx-without-backend-call). TLC checks that no class maps to success; all 957 cases are executed on a "
+         "real ctfe.Instance whose backend replies are rewritten by an interceptor: status class, no panic, no SCT emitted "
+         "or recorded, RequestLog.Status, masking of 500 bodies, no backend call for bad requests, neighbouring requests "
+         "unaffected.",
+    design="4/C08",
+    note="malformed replies limited to what a wire decode can produce; direct (in-backend) chain mode; reference backend.",
+    technique="TLA+ case-matrix spec + TLC complete enumeration; every case replayed with a fault-injecting backend",
+)
+
 NOT_YET = {}
 
 def main():
